@@ -11,6 +11,10 @@ Intents that are not enabled in the current state are skipped (so every sub-list
 a script).  What is recorded per executed operation is the operation with its observed label
 (which member read the worker requested next) and the canonical observation (Adapter/ServerSet
 `Obs`).  Names: child n is `member_%04d` if n < lim (passes the member filter) else `other_%04d`.
+Content: znode n carries the Member with port 9000 + key(n), key(n) = script['keys'][n] (n itself
+beyond the list / without 'keys'); two znodes with the same key carry Members that are equal by
+`Member.__eq__` (which ignores the znode name) — a server that re-registered.  The key recorded with
+every notification is read off the Member object the callback was handed.
 """
 from lib import vfmt
 
@@ -22,7 +26,11 @@ TRUSTED = ['harness/fakezk.py: ZooKeeper watch semantics (one-shot watches, even
            'time; recipe reads atomic, member reads served and returned at separate instants)',
            'kazoo 2.11 DataWatch/ChildrenWatch recipes run unmodified; their behaviour is part of the model '
            '(Model/ServerSet.lean dataDeliver/childDeliver) and is compared on every run']
-ASSUMPTIONS = ['a member is identified by its znode name (the data of a name never changes)',
+ASSUMPTIONS = ['the data of a znode name never changes (a name that is re-created carries the same Member)',
+               'Member-equality clauses (member-join-twice / member-leave-unknown / member-missing / member-stale) are '
+               'judged only while the history never had two member znodes with equal Members at the same time; '
+               'after that only the by-name clauses are judged (the property text does not say what a consumer '
+               'that goes by Member equality should hold then)',
                'member data is well-formed JSON (member_factory does not raise)',
                'no session loss / reconnect; ServerSet.stop() and get_members() are not exercised',
                'recipe reads (get/exists/get_children on the watched path) are answered at once; only member reads '
@@ -30,7 +38,8 @@ ASSUMPTIONS = ['a member is identified by its znode name (the data of a name nev
 RULE = ('scripts drawn from the seeded generator and the word enumerator; distinct = distinct (cfg, op list with labels); non-trivial = '
         'reaches at least one of: a member read that misses, parent deletion with members, re-creation of a name, a '
         'raising callback, a read in flight across a parent deletion, two registered child watches, two queued '
-        'updates, a path operation the DataWatch has not been told about')
+        'updates, a path operation the DataWatch has not been told about, one update that removes a znode and '
+        'adds another with an equal Member, two znodes with equal Members present together')
 
 
 def cname(n, lim):
@@ -41,11 +50,27 @@ def cid(name):
     return int(name.split('_')[1])
 
 
+def keyof(script, n):
+    keys = script.get('keys') or []
+    return keys[n] if n < len(keys) else n
+
+
 # ------------------------------------------------------------------ generation
 def gen_script(rng, tier):
     lim = rng.choice([3, 4, 4, 5, 6])
     nnames = lim + rng.choice([0, 0, 1, 2])
     p_raise = rng.choice([0.0, 0.0, 0.2, 0.5])
+    # content of the znodes: half of the scripts have names that carry equal Members
+    if rng.random() < 0.5:
+        keys = []
+    else:
+        pool = max(1, nnames - rng.choice([1, 2, 2, 3]))
+        keys = [rng.randrange(pool) for _ in range(nnames)]
+    key = lambda n: keys[n] if n < len(keys) else n
+    p_dup = rng.choice([0.0, 0.0, 0.1, 0.5])     # how readily two equal Members are present together
+
+    def clash(n, kids):
+        return n < lim and any(m != n and m < lim and key(m) == key(n) for m in kids)
     rj = sorted(n for n in range(lim) if rng.random() < p_raise)
     rl = sorted(n for n in range(lim) if rng.random() < p_raise)
     length = rng.choice([8, 15, 25, 40] if tier == 'quick' else [10, 20, 40, 80, 120])
@@ -57,7 +82,7 @@ def gen_script(rng, tier):
         ops.append(['cp'])
         parent = True
         for n in range(nnames):
-            if rng.random() < 0.4:
+            if rng.random() < 0.4 and (not clash(n, kids) or rng.random() < p_dup):
                 ops.append(['cc', n])
                 kids.add(n)
     if rng.random() < 0.9:
@@ -102,8 +127,29 @@ def gen_script(rng, tier):
                 if rng.random() < 0.3:
                     ops.append(['dp'])
                     ops.append(['cp'])
-            elif r2 < 0.55 and len(kids) < nnames:
-                n = rng.choice([x for x in range(nnames) if x not in kids])
+            elif r2 < 0.32 and keys and any(m < lim for m in kids):
+                # a server restarts: its znode goes and it re-registers under another name with an equal
+                # Member, usually before the client has listed the children again
+                a = rng.choice(sorted(m for m in kids if m < lim))
+                twins = [b for b in range(lim) if b not in kids and key(b) == key(a)]
+                if twins:
+                    b = rng.choice(twins)
+                    both = [['dc', a], ['cc', b]]
+                    if rng.random() < p_dup:
+                        both.reverse()             # registers again before the old znode has gone
+                    ops.append(both[0])
+                    if rng.random() < 0.15:
+                        ops.append([rng.choice(['deliver', 'serve', 'ret'])])
+                    ops.append(both[1])
+                    kids.discard(a)
+                    kids.add(b)
+                else:
+                    ops.append(['dc', a])
+                    kids.discard(a)
+            elif r2 < 0.60 and len(kids) < nnames:
+                free = [x for x in range(nnames) if x not in kids]
+                calm = [x for x in free if not clash(x, kids)]
+                n = rng.choice(calm if calm and rng.random() >= p_dup else free)
                 ops.append(['cc', n])
                 kids.add(n)
             elif kids:
@@ -117,7 +163,10 @@ def gen_script(rng, tier):
                 ops.append(['cc', rng.randrange(nnames)])
     if rng.random() < 0.9:
         ops.append(['settle'])
-    return {'lim': lim, 'rj': rj, 'rl': rl, 'ops': ops}
+    script = {'lim': lim, 'rj': rj, 'rl': rl, 'ops': ops}
+    if keys:
+        script['keys'] = keys
+    return script
 
 
 EXH_PREFIXES = [
@@ -133,6 +182,9 @@ def exhaustive(tier, shard, shards):
     by running the real code on the word (depth-first; sharded on the first two letters)."""
     n = (THOROUGH if tier == 'thorough' else QUICK)['exhaustive_len']
     base = {'lim': 2, 'rj': [], 'rl': [1]}
+    # the same words once more with znodes 0 and 1 carrying equal Members (which operations are enabled
+    # does not depend on the content)
+    twin = dict(base, keys=[5, 5])
 
     def enabled(ops):
         return run_script(dict(base, ops=ops))['enabled'][-1]
@@ -146,6 +198,8 @@ def exhaustive(tier, shard, shards):
                 continue
             if len(w) >= 2 or shard == 0:
                 yield dict(base, ops=prefix + w + [['settle']])
+                if ['cc', 1] in w:
+                    yield dict(twin, ops=prefix + w + [['settle']])
             if depth > 1:
                 for x in walk(prefix, w, depth - 1):
                     yield x
@@ -161,7 +215,7 @@ def shrink(script):
         s = dict(script)
         s['ops'] = ops[:i] + ops[i + 1:]
         yield s
-    for key in ('rj', 'rl'):
+    for key in ('rj', 'rl', 'keys'):
         if script.get(key):
             s = dict(script)
             s[key] = []
@@ -181,15 +235,18 @@ def run_script(script):
     from scales.loadbalancer.zookeeper import ServerSet
 
     lim, rj, rl = script['lim'], set(script.get('rj', [])), set(script.get('rl', []))
+    keys = list(script.get('keys') or [])
+    key = lambda n: keyof(script, n)
     zk = FakeZk('/svc')
     zk.start()
-    box = {'ss': None, 'notes': [], 'errs': 0}
+    box = {'ss': None, 'notes': [], 'mkeys': [], 'errs': 0}
     steps, tags, enabled = [], set(), []
     joined_once = set()
 
     def on_join(m):
         n = cid(m.name)
         box['notes'].append(('j', n))
+        box['mkeys'].append(m.service_endpoint.port - 9000)
         if n in joined_once:
             tags.add('rejoin')
         joined_once.add(n)
@@ -201,6 +258,7 @@ def run_script(script):
     def on_leave(m):
         n = cid(m.name)
         box['notes'].append(('l', n))
+        box['mkeys'].append(m.service_endpoint.port - 9000)
         tags.add('leave')
         if n in rl:
             box['errs'] += 1
@@ -218,14 +276,18 @@ def run_script(script):
     def observe():
         ss = box['ss']
         notes, box['notes'] = box['notes'], []
+        mkeys, box['mkeys'] = box['mkeys'], []
+        left = [k for (t, _), k in zip(notes, mkeys) if t == 'l']
+        if any(t == 'j' and k in left for (t, _), k in zip(notes, mkeys)):
+            tags.add('restart-in-one-update')
         errs, box['errs'] = box['errs'], 0
         hub = rt.take_errors()
         if hub:
             tags.add('uncaught-' + hub[0][0])
         if ss is None:
-            return [False, notes, errs, False, [], [], 0, False, [], False, 0, None, len(hub)]
+            return [False, notes, mkeys, errs, False, [], [], 0, False, [], False, 0, None, len(hub)]
         quiet = (not zk.pending) and ss._notification_queue.empty() and zk.read is None
-        return [False, notes, errs, quiet, sorted(cid(x) for x in ss._nodes), [cid(x) for x in ss._members],
+        return [False, notes, mkeys, errs, quiet, sorted(cid(x) for x in ss._nodes), [cid(x) for x in ss._members],
                 ss._notification_queue.qsize(), bool(ss._watching), [('d' if k == 'data' else 'c') for k, _, _ in zk.pending],
                 bool(zk.data_watch), len(zk.child_watch), reading(), len(hub)]
 
@@ -258,7 +320,10 @@ def run_script(script):
                 return False
             if n >= lim:
                 tags.add('filtered-child')
-            zk.t_create_child(cname(n, lim), member_data('h', 9000 + n))
+            zk.t_create_child(cname(n, lim), member_data('h', 9000 + key(n)))
+            present = [key(cid(x)) for x in zk.kids if x.startswith('member_')]
+            if len(set(present)) < len(present):
+                tags.add('equal-members-together')
             text = 'cc %d' % n
         elif k == 'dc':
             n = op[1]
@@ -296,9 +361,9 @@ def run_script(script):
             nxt = cid(zk.requested[-1]) if len(zk.requested) > nreq else None
             text += ' ' + vfmt(nxt)
         obs = observe()
-        if obs[10] >= 2:
+        if obs[11] >= 2:
             tags.add('two-child-watches')
-        if obs[6] >= 2:
+        if obs[7] >= 2:
             tags.add('queue-2')
         steps.append([text, vfmt(obs)])
         return True
@@ -326,11 +391,12 @@ def run_script(script):
         box['ss'].stop()
         rt.drain()
         rt.take_errors()
-    cfg = vfmt([lim, sorted(rj), sorted(rl)])[1:-1]
+    cfg = vfmt([lim, sorted(rj), sorted(rl)] + ([keys] if keys else []))[1:-1]
     return {'comp': COMPONENT, 'cfg': cfg, 'steps': steps, 'tags': sorted(tags), 'enabled': enabled}
 
 
 def nontrivial(case):
     t = set(case.get('tags', []))
     return bool(t & {'miss', 'parent-deleted-with-members', 'rejoin', 'raise', 'inflight-at-parent-delete',
-                     'two-child-watches', 'queue-2', 'parent-recreated', 'parent-op-unobserved'})
+                     'two-child-watches', 'queue-2', 'parent-recreated', 'parent-op-unobserved',
+                     'restart-in-one-update', 'equal-members-together'})
